@@ -206,6 +206,9 @@ func c16Exec(sc c16Scenario) (string, map[string]bool) {
 			}
 			var muts, imuts, dels, idels, exps, iexps float64
 			for _, ev := range m.all {
+				if ev.skipped {
+					continue // dropped before skipUntil: not "accepted"
+				}
 				switch ev.ev.Kind {
 				case "mut":
 					muts++
@@ -297,6 +300,9 @@ func TestC16_Metrics(t *testing.T) {
 		sc.Total = rapid.IntRange(1, 4).Draw(rt, "total")
 		sc.Member = rapid.IntRange(1, sc.Total).Draw(rt, "member")
 		sc.H.Lo, sc.H.Hi = c16Range(sc.H.NumVb, sc.Total, sc.Member)
+		if rapid.IntRange(0, 2).Draw(rt, "skipuntil") == 0 {
+			sc.H.SkipAt = rapid.IntRange(2, 25).Draw(rt, "skipat") // document events older than that are dropped, and must not be counted
+		}
 		n := 1
 		for _, op := range sc.H.Ops {
 			if op.Op == "scrape" {
